@@ -9,7 +9,7 @@ D5 silence pull: set only under is_briefly_silent, released only when the link s
 D6 proof stamps: only an earned SRTLA ACK and an answered keepalive (shared with C09.D4);
 D7 "heard from again" must mean this link: the pull's release predicate may read only state that no cross-link (broadcast) handler can write.
 """
-from ..ctx import CONN, is_call, is_field, is_iter_next, sname
+from ..ctx import full_slice_element, CONN, is_call, is_field, is_iter_next, sname
 from ..expr import show, walk
 from ..pathcond import PathA, calls_to, field_stores
 from . import C03, C05
@@ -191,7 +191,7 @@ def d4_continuity(ctx):
             backs = [t for (t, h) in cfg.back_edges() if loop and h == loop[0]]
             every = all(cfg.dominates(lb, t) for t in backs)
             link = gpa.fa.val_operand(ul[0][1]["args"][0], (lb, len(gate.blocks[lb]["stmts"])))
-            full = any(is_call(x, name_contains="<impl [T]>::iter_mut") and x[2] == (("param", 1),) for x in walk(link))
+            full = full_slice_element(link, ("param", 1)) is not None
             same_link = link == gpa.fa.val_operand(up[0][1]["args"][0], (pb, len(gate.blocks[pb]["stmts"])))
             # every guard-on path passes this loop
             on = gpa.find(lambda a: a[0] == "field" and a[3] == "stall_deselect")
